@@ -13,7 +13,7 @@ ASSUMPTIONS_COMMON = [
 
 HOOK_COMMITS = ['63b1378 verif hook: include external Kani harnesses under cfg(kani)']
 
-CLAIMED = ['C01', 'C02', 'C03', 'C04', 'C05', 'C06', 'C07', 'C09', 'C10', 'C12', 'C13', 'C14', 'C15', 'C16', 'C17', 'C18', 'C20']
+CLAIMED = ['C01', 'C02', 'C03', 'C04', 'C05', 'C06', 'C07', 'C09', 'C10', 'C11', 'C12', 'C13', 'C14', 'C15', 'C16', 'C17', 'C18', 'C20']
 
 INFO = {
  'C20': {
@@ -32,6 +32,8 @@ INFO.update({
          'not_covered': ['byte-exactness of reads/writes (kernel socket semantics)', 'Readable/Writable/AsyncRead/AsyncWrite poll functions (Pin/Context, feature futures-io)', 'waker scheduling, task completion (liveness)', 'Async::new before the registration step (unsizing coercion unsupported by Verus)'], 'trusted': ['rustix::fs fcntl stand-ins', 'Waker::wake witness']},
  'C10': {'claim': 'Wake/drain protocol and result hand-over of the executor source on the verbatim text (S1 slices of futures.rs): a waker that has enqueued a runnable writes the eventfd only if its swap found the notified flag clear, and then has written it; the executor may drain its queue only after it has cleared that flag; a result reaches the callback only after it has been taken out of the task table (not Clone: exactly once); the clear-readiness flag is set only when the queue had nothing more to give; a batch that was cut short re-arms the executor\'s own wake-up.',
          'not_covered': ['thread schedules and atomic orderings', 'async_task internals (poll/drop on the loop thread)', 'the enqueue itself (Mutex<mpsc::Sender>)', 'Scheduler::schedule, Executor::drop', 'StreamSource (Pin/Context)'], 'trusted': ['slab::Slab as a finite map (assumed)', 'atomic store/swap witnesses through identity stand-ins (R19)']},
+ 'C11': {'claim': 'Sequential content of the stop/wake-up mechanisms on the verbatim text: run() returns Ok only after having read the stop flag as raised (and forwards every dispatch error); LoopSignal::stop() has raised that flag when it returns; LoopSignal::wakeup() / Notifier::notify() have called the poller\'s notify; a synthetic-event-free dispatch waits with exactly the caller\'s timeout (see C12/C14 slice).',
+         'not_covered': ['that a poller notification issued before the wait makes the next wait return (sticky notification: polling/kernel behaviour)', 'memory ordering between stop() and the loop thread', 'block_on (feature block_on: Pin/Context/Waker)', 'at most one more iteration after stop (timing)'], 'trusted': ['atomic load/store witnesses through identity stand-ins (R19)', 'frame: dispatch_events/dispatch_idles do not replace the shared Signals object (assumed on the two signature-only callees)']},
  'C13': {'claim': 'Slot semantics of idle callbacks: cancel() empties the slot; dispatch() never calls anything on an empty slot and leaves it empty.',
          'not_covered': ['insert_idle FnOnce wrapper (closure mutating captured state)', 'dispatch_idles take-then-run, ordering, idle inserted by idle'], 'trusted': []},
  'C18': {'claim': 'Whole TransientSource state machine on the verbatim text (rewrites R1-R3, R6, R8): for every state x {process_events with any child result, remove, replace, map, register, reregister, unregister}, any child obeying the registration protocol and any parent whose register/unregister alternate, the state invariant (child registered exactly when it is the current kept child of a registered parent) is preserved, the child protocol preconditions hold at all 14 call sites, a child is dropped only when unregistered, events are forwarded only from the kept child, only Continue/Reregister are returned. Three obligations fail on the real code (known findings F6a/b/d).',
